@@ -181,7 +181,10 @@ var wsPool = []string{"", " ", " ", "  ", "\t", "\n", "\n", "\n\n", "\n\t", " \n
 
 // Perturb replaces the white space at 1..k token boundaries that do not touch a comment by a
 // drawn blank/tab/newline sequence. It returns nil when the result does not parse.
-func Perturb(t *rapid.T, in Input, k int, blanksOnly bool) []byte {
+//
+// With keepLines no line break is added or removed: a gap that holds a line break gets another
+// number of blank lines / another indentation, a gap without one gets blanks and tabs.
+func Perturb(t *rapid.T, in Input, k int, keepLines bool) []byte {
 	toks := Tokens(in.Src)
 	var cuts [][2]int // gaps between two consecutive real tokens
 	for i := 0; i+1 < len(toks); i++ {
@@ -212,11 +215,12 @@ func Perturb(t *rapid.T, in Input, k int, blanksOnly bool) []byte {
 	for i := 0; i < n; i++ {
 		c := rapid.IntRange(0, len(cuts)-1).Draw(t, "gap")
 		ws := rapid.SampledFrom(wsPool).Draw(t, "ws")
-		if blanksOnly {
+		if keepLines {
 			if bytes.IndexByte(in.Src[cuts[c][0]:cuts[c][1]], '\n') >= 0 {
-				continue // keep every line break
+				ws = rapid.SampledFrom([]string{"\n", "\n\n", "\n\t", "\n\n\n", " \n", "\n  ", "\n\t\t"}).Draw(t, "nl")
+			} else {
+				ws = strings.ReplaceAll(ws, "\n", " ")
 			}
-			ws = strings.ReplaceAll(ws, "\n", " ")
 		}
 		chosen[c] = ws
 	}
@@ -530,9 +534,8 @@ type Variant struct {
 type Policy struct {
 	Conv func(ConvClass) bool
 	Mut  func(string) bool
-	// BlanksOnly says for which origins a perturbation only inserts or removes blanks and tabs
-	// (line breaks of the source stay as they are).
-	BlanksOnly func(origin string) bool
+	// KeepLines: perturbations never add or remove a line break (see Perturb).
+	KeepLines bool
 }
 
 // DrawVariant draws a base source and applies, each with some probability, an AST mutation,
@@ -557,7 +560,7 @@ func DrawVariant(t *rapid.T, pol Policy) Variant {
 		}
 	}
 	if rapid.IntRange(0, 9).Draw(t, "do-perturb") < 6 {
-		if out := Perturb(t, v.Input, 8, pol.BlanksOnly != nil && pol.BlanksOnly(v.Origin)); out != nil {
+		if out := Perturb(t, v.Input, 8, pol.KeepLines); out != nil {
 			v.Src, v.Steps = out, append(v.Steps, "perturb")
 		}
 	}
